@@ -11,6 +11,7 @@
 import NPModel.Refine.Repack
 import NPModel.Spec.Frame
 import NPModel.Refine.Repacked
+import NPModel.Refine.QueryRows
 namespace NP.C07
 open NP
 variable {α : Type}
@@ -92,6 +93,27 @@ theorem query_filters_rows_of_the_frame (F : NFrame α) (nest : String)
       col.rows = repackedRows (cols.map fun c => (c.1, c.2.1, filterRowsBy masks c.2.2))
         (masks.map fun m => (m.filter id).length) :=
   filter_then_repack F nest cols lens masks hn hcols hmasks hne
+
+/-- **`query` on a nested layer, end to end through the implementation model**
+    (`NFrame.query` = flat view with the ordinal index → the condition on every record →
+    filtered flat table → packer → alignment with `take(allow_fill)`), for every frame whose
+    nested column is stored cleanly (`PCol.Clean`; any number of chunks, any slice offsets), every
+    condition over that layer only and every outcome `vals` of evaluating it record by record:
+    the query succeeds and replaces ONLY that column; row `i` of it holds exactly the records of
+    row `i` whose outcome is `True`, in their original order, every field filtered by the same
+    mask; a row left without records is missing; the frame keeps all its rows in place. -/
+theorem query_nested_end_to_end (F : NFrame Cell) (e : Expr) (nest : String) (c : PCol Cell)
+    (hl : e.layers = [some nest]) (hnc : F.nestedColumns.contains nest = true)
+    (hc : F.nest? nest = .ok c) (h : c.Clean) (hch : c.chunks ≠ []) (hidx : F.index.length = c.len)
+    (vals : List Cell)
+    (hev : evalAll (ordFlat (colLists c) (c.rows.map Row.len)).len
+      (recordLookup (ordFlat (colLists c) (c.rows.map Row.len)) nest) e = .ok vals) :
+    let masks := Spec.splitBy (c.rows.map Row.len) (vals.map fun v => v == some (.bool true))
+    ∃ col, F.query e = .ok (F.setCol nest (.nest col)) ∧
+      col.rows = repackedRows ((colLists c).map fun c' => (c'.1, c'.2.1, filterRowsBy masks c'.2.2))
+        (masks.map fun m => (m.filter id).length) ∧
+      col.rows.length = F.index.length :=
+  query_nested_refines F e nest c hl hnc hc h hch hidx vals hev
 
 /-- non-vacuity of `repack_step_row_by_row`: three rows keeping 2, 0 and 1 records of two fields -/
 example :
